@@ -291,6 +291,16 @@ fn roundtrip<P: Protocol + Clone>(mut proto: P, p: &Packet) -> Result<(), String
     if &buf[..] != &[0xC0, 0x00] {
         return Err(format!("decoder consumed {} bytes, frame was {}", n + 2 - buf.len(), n));
     }
+    // the encoder APPENDS to the buffer it is given: the frame is the same whatever the buffer already holds
+    let mut fresh = VBytesMut::new();
+    let _ = proto.write(p.clone(), &mut fresh);
+    let mut appended = VBytesMut::from(&[0xC0u8, 0x00, 0xD0, 0x00][..]);
+    let m = std::panic::catch_unwind(std::panic::AssertUnwindSafe(|| proto.write(p.clone(), &mut appended)))
+        .map_err(|_| "encoder panicked when appending to a non-empty buffer".to_string())?
+        .map_err(|e| format!("encoder refused to append to a non-empty buffer: {:?}", e))?;
+    if m != n || appended[..4] != [0xC0u8, 0x00, 0xD0, 0x00] || appended[4..] != fresh[..] {
+        return Err(format!("appended to a buffer that already held 4 bytes, the encoder wrote {:02x?} (and left the first 4 bytes as {:02x?}); into an empty buffer it writes {:02x?}", &appended[4..], &appended[..4], &fresh[..]));
+    }
     Ok(())
 }
 
@@ -609,6 +619,20 @@ fn client_codecs_reencode_everything_the_broker_encodes() {
                     if c2 != c || !s2.is_empty() {
                         return Err(format!("client round trip changed the packet: {:?} -> {:?}", c, c2));
                     }
+                }
+                // the client encoders APPEND: the frame is the same whatever the buffer already holds
+                let mut b3 = VBytesMut::from(&[0xC0u8, 0x00, 0xD0, 0x00][..]);
+                if v4 {
+                    let mut s = VBytesMut::from(&b[..]);
+                    let c = c4::Packet::read(&mut s, MAXSZ).map_err(|e| format!("{:?}", e))?;
+                    c.write(&mut b3, MAXSZ).map_err(|e| format!("client encoder refused to append: {:?}", e))?;
+                } else {
+                    let mut s = VBytesMut::from(&b[..]);
+                    let c = c5::Packet::read(&mut s, None).map_err(|e| format!("{:?}", e))?;
+                    c.write(&mut b3, None).map_err(|e| format!("client encoder refused to append: {:?}", e))?;
+                }
+                if b3[..4] != [0xC0u8, 0x00, 0xD0, 0x00] || b3[4..] != b2[..] {
+                    return Err(format!("appended to a buffer that already held 4 bytes, the client encoder wrote {:02x?} (first 4 bytes now {:02x?}); into an empty buffer it writes {:02x?}", &b3[4..], &b3[..4], &b2[..]));
                 }
                 // and the broker reads the client's encoding as the packet it started from
                 let mut s3 = VBytesMut::from(&b2[..]);
